@@ -18,7 +18,11 @@
    * the numpy pieces of transform(): tf.dot(column) is the exact row-by-column
      sum, np.linalg.inv of the 2x2 block is the exact adjugate formula, and
      np.linalg.eig is an ORACLE (a parameter returning eigenvalues and the
-     matrix whose columns are eigenvectors) — nothing about it is assumed here. *)
+     matrix whose columns are eigenvectors) — nothing about it is assumed here;
+   * the Arc branch of transform() exists in two variants selected by a flag tfx
+     (false = the pinned code with the eigen oracle, arc_transform; true = the
+     repaired code of fixes/C10-arc-transform.diff, arc_transform_fixed: closed-form
+     eigen-decomposition of M.M^T, no oracle). *)
 From Coq Require Import ZArith List Bool Arith.
 From SVP Require Import Base.Num Base.Cplx Base.Poly Model.Bezier Model.BezierN Model.Arc.
 Import ListNotations.
@@ -261,6 +265,79 @@ Section Arcs.
       let new_sweep := if leb N (zero N) (mul N m00 m11) then a_sweep P else negb (a_sweep P) in
       SArc (arc_init N T new_start (rx, ry) (add N (a_rotation P) rot) (a_large P) new_sweep new_end).
 
+  (* transform, Arc branch, REPAIRED (fixes/C10-arc-transform.diff):
+       a00, a01 = tf[0][0], tf[0][1]; a10, a11 = tf[1][0], tf[1][1]
+       det = a00*a11 - a01*a10
+       cosphi = curve.rot_matrix.real; sinphi = curve.rot_matrix.imag
+       rx = curve.radius.real; ry = curve.radius.imag
+       m00 = (a00*cosphi + a01*sinphi)*rx;  m01 = (a01*cosphi - a00*sinphi)*ry
+       m10 = (a10*cosphi + a11*sinphi)*rx;  m11 = (a11*cosphi - a10*sinphi)*ry
+       p = m00*m00 + m01*m01; q = m00*m10 + m01*m11; r = m10*m10 + m11*m11
+       half_diff = (p - r)/2
+       lam = (p + r)/2 + np.hypot(half_diff, q)
+       if det == 0 or not lam > 0: return Line(new_start, new_end)
+       new_rx = np.sqrt(lam); new_ry = abs(det)*rx*ry/new_rx
+       if new_ry == 0: return Line(new_start, new_end)
+       rot = np.degrees(np.arctan2(q, half_diff)/2)
+       new_sweep = curve.sweep if det > 0 else not curve.sweep
+       return Arc(new_start, radius=complex(new_rx, new_ry), rotation=rot,
+                  large_arc=curve.large_arc, sweep=new_sweep, end=new_end, autoscale_radius=True) *)
+  (* np.arctan2(y, x) from atan and the quadrant of (x, y) *)
+  Definition atan2_ (y x : K) : K :=
+    if ltb N (zero N) x then atan_ T (div N y x)
+    else if ltb N x (zero N) then
+      (if leb N (zero N) y then add N (atan_ T (div N y x)) (pi_ T)
+       else sub N (atan_ T (div N y x)) (pi_ T))
+    else if ltb N (zero N) y then div N (pi_ T) (two N)
+    else if ltb N y (zero N) then opp N (div N (pi_ T) (two N))
+    else zero N.
+  (* M = A.R(phi).diag(rx, ry) *)
+  Definition arc_tf_M (M : Mat3 K) (P : ArcP K) : Mat2 K :=
+    let '((a00, a01, _), (a10, a11, _), _) := M in
+    let cosphi := re (a_rot P) in let sinphi := im (a_rot P) in
+    let rx := re (a_radius P) in let ry := im (a_radius P) in
+    ((mul N (add N (mul N a00 cosphi) (mul N a01 sinphi)) rx,
+      mul N (sub N (mul N a01 cosphi) (mul N a00 sinphi)) ry),
+     (mul N (add N (mul N a10 cosphi) (mul N a11 sinphi)) rx,
+      mul N (sub N (mul N a11 cosphi) (mul N a10 sinphi)) ry)).
+  Definition tf_det (M : Mat3 K) : K :=
+    let '((a00, a01, _), (a10, a11, _), _) := M in sub N (mul N a00 a11) (mul N a01 a10).
+  (* (p, q, r) of M.M^T, half_diff, lam *)
+  Definition arc_tf_pqr (M2 : Mat2 K) : K * K * K :=
+    let '((m00, m01), (m10, m11)) := M2 in
+    (add N (mul N m00 m00) (mul N m01 m01),
+     add N (mul N m00 m10) (mul N m01 m11),
+     add N (mul N m10 m10) (mul N m11 m11)).
+  Definition arc_tf_half_diff (pqr : K * K * K) : K :=
+    let '(p, _, r) := pqr in div N (sub N p r) (two N).
+  Definition arc_tf_lam (pqr : K * K * K) : K :=
+    let '(p, q, r) := pqr in
+    add N (div N (add N p r) (two N)) (hypot_ T (arc_tf_half_diff pqr) q).
+  Definition arc_tf_new_rx (M : Mat3 K) (P : ArcP K) : K :=
+    sqrt_ T (arc_tf_lam (arc_tf_pqr (arc_tf_M M P))).
+  Definition arc_tf_new_ry (M : Mat3 K) (P : ArcP K) : K :=
+    div N (mul N (mul N (nabs N (tf_det M)) (re (a_radius P))) (im (a_radius P))) (arc_tf_new_rx M P).
+  Definition arc_tf_new_rot (M : Mat3 K) (P : ArcP K) : K :=
+    let pqr := arc_tf_pqr (arc_tf_M M P) in
+    let '(_, q, _) := pqr in
+    degrees_ T (div N (atan2_ q (arc_tf_half_diff pqr)) (two N)).
+  Definition arc_transform_fixed (M : Mat3 K) (P : ArcP K) : Seg K :=
+    if mat_is_identity N M then SArc P else
+    let new_start := tf_point N M (a_start P) in
+    let new_end := tf_point N M (a_end P) in
+    let det := tf_det M in
+    let lam := arc_tf_lam (arc_tf_pqr (arc_tf_M M P)) in
+    if eqb N det (zero N) || negb (ltb N (zero N) lam) then SBez [new_start; new_end] else
+    let new_rx := arc_tf_new_rx M P in
+    let new_ry := arc_tf_new_ry M P in
+    if eqb N new_ry (zero N) then SBez [new_start; new_end] else
+    let new_sweep := if ltb N (zero N) det then a_sweep P else negb (a_sweep P) in
+    SArc (arc_init N T new_start (new_rx, new_ry) (arc_tf_new_rot M P) (a_large P) new_sweep new_end).
+  (* tfx selects the variant of the Arc branch: false = pinned code (with its eigen oracle),
+     true = repaired code (no oracle) *)
+  Definition arc_transform_v (tfx : bool) (eig : EigOracle K) (M : Mat3 K) (P : ArcP K) : Seg K :=
+    if tfx then arc_transform_fixed M P else arc_transform eig M P.
+
   (* ---- segment accessors ---- *)
   Definition seg_start (s : Seg K) : C :=
     match s with SBez p => hd (c0 N) p | SArc P => a_start P end.
@@ -297,11 +374,11 @@ Section Arcs.
     | SBez p => xmap SBez (scale_bezier N sx sy origin p)
     | SArc P => xmap SArc (arc_scale sx sy origin P)
     end.
-  Definition seg_transform (eig : EigOracle K) (M : Mat3 K) (s : Seg K) : xres (Seg K) :=
+  Definition seg_transform (tfx : bool) (eig : EigOracle K) (M : Mat3 K) (s : Seg K) : xres (Seg K) :=
     match s with
     | SBez p => if mat_is_identity N M then XOk s
                 else xmap SBez (bpoints2bezier (map (tf_point N M) p))
-    | SArc P => XOk (arc_transform eig M P)
+    | SArc P => XOk (arc_transform_v tfx eig M P)
     end.
 
   (* ---- the four functions on a Path (list of segments) ---- *)
@@ -317,9 +394,9 @@ Section Arcs.
     path_together (seg_rotate degs cs (Some origin)) path.
   Definition path_scale (sx : K) (sy : option K) (origin : C) (path : list (Seg K)) :=
     path_together (seg_scale sx sy origin) path.
-  Definition path_transform (eig : EigOracle K) (M : Mat3 K) (path : list (Seg K)) :=
+  Definition path_transform (tfx : bool) (eig : EigOracle K) (M : Mat3 K) (path : list (Seg K)) :=
     if mat_is_identity N M then XOk path
-    else path_together (seg_transform eig M) path.
+    else path_together (seg_transform tfx eig M) path.
 
   (* Path.isclosedac: self.start == self.end  (first start, last end) *)
   Definition path_closed (path : list (Seg K)) : bool :=
